@@ -196,6 +196,7 @@ pub fn plan_for(seed: u64, tier: Tier, big_ok: bool) -> PlanFn {
             return Plan {
                 delay: Duration::ZERO,
                 response: Response::new(req.body().clone()),
+                hold: Duration::ZERO,
             };
         }
         let spec = gen_response(seed, nonce, tier, big_ok);
@@ -206,6 +207,7 @@ pub fn plan_for(seed: u64, tier: Tier, big_ok: bool) -> PlanFn {
         Plan {
             delay: Duration::from_millis(spec.delay_ms),
             response: resp.with_extension(LocalMarker(9)),
+            hold: Duration::ZERO,
         }
     })
 }
